@@ -113,6 +113,38 @@ pub fn gen_c06(rng: &mut Rng, thorough: bool) -> WorldTrace {
         v.files[0].decls.retain(|d| !f.involved.contains(d));
         variants.push(v);
     }
+    // the quantifier asks for all permutations of the top-level declarations of small worlds:
+    // every permutation as a one-file layout (up to 3 declarations in quick, 5 in thorough)
+    let n = world.decls.len();
+    if n >= 2 && n <= if thorough { 5 } else { 3 } {
+        let mut perm: Vec<usize> = (0..n).collect();
+        // Heap's algorithm, iterative
+        let mut c = vec![0usize; n];
+        let mut i = 0;
+        let mut all = vec![perm.clone()];
+        while i < n {
+            if c[i] < i {
+                if i % 2 == 0 {
+                    perm.swap(0, i);
+                } else {
+                    perm.swap(c[i], i);
+                }
+                all.push(perm.clone());
+                c[i] += 1;
+                i = 0;
+            } else {
+                c[i] = 0;
+                i += 1;
+            }
+        }
+        for p in all.into_iter().skip(1) {
+            let mut v = canonical_variant(&world, "permutation");
+            v.files[0].decls = p;
+            v.hash_seed = rng.next();
+            variants.push(v);
+        }
+    }
+    let nvar = nvar + variants.len();
     let first_free = variants.len();
     while variants.len() < nvar {
         if variants.len() > first_free && rng.chance(1, 4) {
@@ -1015,6 +1047,10 @@ pub fn execute(t: &WorldTrace, stats: &mut Stats) -> RunReport {
         obs.push(o);
     }
     stats.count(&format!("world_kind.{}", world_kind(&t.world)));
+    let nperm = t.variants.iter().filter(|v| v.role == "permutation").count();
+    if nperm > 0 {
+        stats.count(&format!("c06.worlds_with_all_permutations.{}decls", t.world.decls.len()));
+    }
     let violations = match t.prop.as_str() {
         "C06" => oracle_c06(t, &obs, stats),
         "C13" => oracle_c13(t, &obs, stats),
